@@ -3,7 +3,9 @@
 //! characters, word-piece byte indices, nested command texts) so that the Coq model of the span
 //! builder can be replayed on exactly that input.
 //!
-//! Subcommand `hl`. Case fields: <line> <cursor> [<opts>]   (opts: "sh" = sh mode shell)
+//! Subcommand `hl`. Case fields: <line> <cursor> [<opts>]   (opts, comma separated: "sh" = sh mode
+//! shell; "bqraw" = the tree under test highlights the raw text of backquoted substitutions, see
+//! translator/ex_c19.py)
 //! Output fields: `C` nspans (start end kind)*  |  `PANIC` msg     then   `TREE` <tree fields>
 //!   prog   := `E` | `P` ntok token*
 //!   token  := `O` sc ec | `W` sc ec flags pieces
@@ -76,11 +78,17 @@ fn word_flags(shell: &brush_core::Shell, w: &str) -> String {
     bits.iter().map(|b| if *b { '1' } else { '0' }).collect()
 }
 
+/// `top`: the whole input line; `g`: global byte offset of the word the piece belongs to;
+/// `bqraw`: the code under test highlights the raw text between backquotes (sliced out of `top`
+/// at the piece's global range) instead of the unescaped command string of the word parser.
 fn dump_piece(
     shell: &brush_core::Shell,
     p: &brush_parser::word::WordPieceWithSource,
     out: &mut Vec<String>,
     depth: usize,
+    top: &str,
+    g: usize,
+    bqraw: bool,
 ) {
     use brush_parser::word::WordPiece as WP;
     let leaf = |tag: &str, out: &mut Vec<String>| {
@@ -97,23 +105,38 @@ fn dump_piece(
             leaf("D", out);
             pushn(out, subs.len());
             for s in subs {
-                dump_piece(shell, s, out, depth);
+                dump_piece(shell, s, out, depth, top, g, bqraw);
             }
         }
         WP::BackquotedCommandSubstitution(cmd) => {
             leaf("B", out);
-            push(out, cmd);
-            dump_prog(shell, cmd, out, depth + 1);
+            let gs = g + p.start_index;
+            let ge = g + p.end_index;
+            let text: &str = if bqraw {
+                top.get((gs + 1)..ge.saturating_sub(1)).unwrap_or_default()
+            } else {
+                cmd.as_str()
+            };
+            push(out, text);
+            dump_prog(shell, text, out, depth + 1, top, gs + 1, bqraw);
         }
         WP::CommandSubstitution(cmd) => {
             leaf("S", out);
             push(out, cmd);
-            dump_prog(shell, cmd, out, depth + 1);
+            dump_prog(shell, cmd, out, depth + 1, top, g + p.start_index + 2, bqraw);
         }
     }
 }
 
-fn dump_prog(shell: &brush_core::Shell, line: &str, out: &mut Vec<String>, depth: usize) {
+fn dump_prog(
+    shell: &brush_core::Shell,
+    line: &str,
+    out: &mut Vec<String>,
+    depth: usize,
+    top: &str,
+    off: usize,
+    bqraw: bool,
+) {
     if depth > 200 {
         push(out, "E");
         return;
@@ -145,7 +168,7 @@ fn dump_prog(shell: &brush_core::Shell, line: &str, out: &mut Vec<String>, depth
                         push(out, "L");
                         pushn(out, pieces.len());
                         for p in &pieces {
-                            dump_piece(shell, p, out, depth);
+                            dump_piece(shell, p, out, depth, top, off + sb, bqraw);
                         }
                     }
                     Err(_) => push(out, "X"),
@@ -221,7 +244,9 @@ pub fn run(sub: &str, cases: &[Vec<String>]) -> bool {
         let line = unhex_str(c.first().map(|s| s.as_str()).unwrap_or("-"));
         let cursor: usize = unhex_str(c.get(1).map(|s| s.as_str()).unwrap_or("-")).parse().unwrap_or(0);
         let opts = unhex_str(c.get(2).map(|s| s.as_str()).unwrap_or("-"));
-        let shell = if opts == "sh" { &shell_sh } else { &shell_bash };
+        let has = |k: &str| opts.split(',').any(|o| o == k);
+        let shell = if has("sh") { &shell_sh } else { &shell_bash };
+        let bqraw = has("bqraw");
         let mut out: Vec<String> = vec![];
         let r = std::panic::catch_unwind(std::panic::AssertUnwindSafe(|| {
             let h = highlight_command(shell, &line, cursor);
@@ -245,7 +270,7 @@ pub fn run(sub: &str, cases: &[Vec<String>]) -> bool {
         let t = std::panic::catch_unwind(std::panic::AssertUnwindSafe(|| {
             let mut o: Vec<String> = vec![];
             push(&mut o, "TREE");
-            dump_prog(shell, &line, &mut o, 0);
+            dump_prog(shell, &line, &mut o, 0, &line, 0, bqraw);
             o
         }));
         match t {
